@@ -1002,9 +1002,17 @@ theorem parseFresh_v5 {env : Env} (henv : EnvOK env) {cfg : DwarfCfg} {msecs : S
     intro x y; simp [v5FieldsWith, Fields.set]
   rw [parseLineProgramFresh, parseHeader_v5 henv h secs is pre rest hwf hv5 hle hfmt]
   simp only [bind, Except.bind, pure, Except.pure, r1, r2, g1, m1, s3, g2, m2, s4]
-  simp only [lpOf, observe_v5 h secs is hv5, v5FieldsWith, hend, if_pos hv5]
+  have hvi5 : ((5 : Int) ≤ (h.version : Int)) := by omega
+  -- `program_start_offset`: `header_length` bytes past the `header_length` field
+  have hstart : pre.length + headerSize h
+      = pre.length + (if cfg.fmt = 32 then 4 else 12) + 2 + 2 + cfg.fmt / 8 + h.tail.length := by
+    have e1 : h.mid.length = 2 + 2 + offSize h.fmt64 := by simp [Header.mid, hv5, encNat_length] <;> omega
+    rw [headerSize, e1, hfmt]
+    cases h.fmt64 <;> simp [initLenSize, offSize] <;> omega
+  simp only [lpOf, observe_v5 h secs is hv5, v5FieldsWith, hend, if_pos hv5, hstart]
   generalize (h.mid ++ h.tail ++ encodeProgram h.p is).length = N
-  simp [Fields.get?, Val.getNat, Val.getField, Fields.getR, Val.asNat, Val.asInt, bind, Except.bind, hneg]
+  simp [Fields.get?, Val.getNat, Val.getInt, Val.getField, Fields.getR, Val.asNat, Val.asInt, bind, Except.bind, hneg,
+    hvi5]
   omega
 
 /-- versions 2–5 together -/
